@@ -92,6 +92,13 @@ Theorem C03_only_common_instances : forall (K : nat -> kind) (t : tree),
 Proof. exact only_common_instances. Qed.
 Print Assumptions C03_only_common_instances.
 
+(* ... and every object is created for a NonTerminal node of that rule in the parse tree: nothing
+   is instantiated that the parse did not produce *)
+Theorem C03_objects_from_nodes : forall (K : nat -> kind) (t : tree) (c : nat),
+  In c (objs (process K t)) -> K c = KCommon /\ In c (node_rules t).
+Proof. exact objs_from_nodes. Qed.
+Print Assumptions C03_objects_from_nodes.
+
 Theorem C03_match_plain : forall K r kids, K r = KMatch -> exists s, process K (TN r kids) = VStr s.
 Proof. intros K r kids H. eexists. apply process_match. exact H. Qed.
 Print Assumptions C03_match_plain.
